@@ -54,6 +54,14 @@ func initCommand(cmd *cobra.Command, args []string) (string, []string, error) {
 		return "", nil, fmt.Errorf("write in place cannot be used with split file")
 	}
 
+	if frontMatter == "process" && splitFileExp != "" {
+		return "", nil, fmt.Errorf("front matter processing cannot be used with split file")
+	}
+
+	if indent < 0 {
+		return "", nil, fmt.Errorf("indent must be 0 or more, got %v", indent)
+	}
+
 	if nullInput && len(args) > 0 {
 		return "", nil, fmt.Errorf("cannot pass files in when using null-input flag")
 	}
